@@ -21,6 +21,9 @@ pub struct Context {
 
     function_to_scope: HashMap<ir::FunctionId, ScopeIndex>,
     struct_template_data: Vec<StructTemplateData>,
+
+    /// Default argument expressions from function declarations - for definitions that do not repeat them
+    declared_default_arguments: HashMap<ir::FunctionId, Vec<Option<ast::Expression>>>,
 }
 
 pub type ScopeIndex = usize;
@@ -85,6 +88,7 @@ impl Context {
             }]),
             current_scope: 0,
             function_to_scope: HashMap::new(),
+            declared_default_arguments: HashMap::new(),
             struct_template_data: Vec::new(),
         };
 
@@ -596,6 +600,27 @@ impl Context {
         self.function_to_scope.insert(id, scope);
 
         Ok(id)
+    }
+
+    /// Remember the default argument expressions of a function declaration
+    pub fn set_declared_default_arguments(
+        &mut self,
+        id: ir::FunctionId,
+        default_arguments: Vec<Option<ast::Expression>>,
+    ) {
+        self.declared_default_arguments.insert(id, default_arguments);
+    }
+
+    /// Get the default argument expression a declaration gave for a parameter
+    pub fn get_declared_default_argument(
+        &self,
+        id: ir::FunctionId,
+        param_index: usize,
+    ) -> Option<ast::Expression> {
+        match self.declared_default_arguments.get(&id) {
+            Some(default_arguments) => default_arguments.get(param_index).cloned().flatten(),
+            None => None,
+        }
     }
 
     /// Ensure we can insert a new function into the current scope
